@@ -133,11 +133,14 @@ FORMAT_NAMES = {"delimited": "Delimited", "fixed": "Fixed", "excel": "Excel", "o
 
 # -- pools of the field row defects ---------------------------------------------------------------------------------
 NAME_EMPTY = ["", "   "]
-NAME_DIGIT_FIRST = ["1abc", "9", "0_x", "3rd"]
+NAME_DIGIT_FIRST = ["1abc", "9", "0_x", "3rd", " 1abc", "9 "]
 NAME_UNDERSCORE_FIRST = ["_abc", "_", "_1"]
 NAME_SPECIAL = ["na-me", "na me", "a.b", "a%", "a$b", "?", "a,b", "a\tb", "a!", "%"]
-NAME_NON_ASCII = ["n\xe4me", "\xf1", "na\xefve", "a٣", "名", "\xe4bc", "a\xdf"]
-NAME_KEYWORD = ["class", "for", "None", "lambda", "import", "True", "while", "def", "in", "is"]
+NAME_NON_ASCII = ["n\xe4me", "\xf1", "na\xefve", "a٣", "名", "\xe4bc", "a\xdf", " n\xe4me ", "\xf1 "]
+NAME_KEYWORD = ["class", "for", "None", "lambda", "import", "True", "while", "def", "in", "is",
+                # surrounding blanks do not change a name (they are a meaning-preserving rewrite), so they must not
+                # rescue a defective one either
+                " class", "if ", "  lambda  ", "None   ", " True "]
 BAD_EMPTY_MARK = ["Y", "yes", "xx", "1", "-", "no", "X X", "*", "true"]
 TYPE_UNKNOWN = ["NoSuchType", "Number", "Str", "Int", "Date", "Bool", "fields.NoSuchType", "Regexp"]
 TYPE_MALFORMED = ["Inte ger", "1nteger", "Integer!", "Integer.", "..", ".Integer", "Int-eger", "Integer(",
